@@ -350,6 +350,13 @@ func (s *authzServer) validateIssuer(vContext *validationContext) error {
 		vContext.requester = requester
 	}
 
+	// the signing key must be a key of the issuer itself (RFC003 §5.2.1.3), not of any other resolvable DID
+	if signer, err := resolver.GetDIDFromURL(vContext.kid); err != nil {
+		return fmt.Errorf(errInvalidIssuerKeyFmt, err)
+	} else if !signer.Equals(*vContext.requester) {
+		return fmt.Errorf(errInvalidIssuerKeyFmt, errors.New("key does not belong to jwt.issuer"))
+	}
+
 	validationTime := vContext.jwtBearerToken.IssuedAt()
 	metadata := &resolver.ResolveMetadata{
 		ResolveTime: &validationTime,
